@@ -23,6 +23,7 @@ def models():
         'plain': spec('plain', [A, B], {A: 4, B: 1}, rx),
         'delayed': spec('delayed', [A, B, C], {A: 4, B: 1, C: 0}, drx),
         'rule': spec('rule', [B, A, X], {A: 4, B: 1, X: 0}, rx, rules=rule),
+        'rule+rejected-edits': dict(spec('rule+rejected-edits', [B, A, X], {A: 4, B: 1, X: 0}, rx, rules=rule), rejected=True),
         'rule+delayed': spec('rule+delayed', [C, A, B, X], {A: 4, B: 1, C: 0, X: 0}, drx, rules=rule),
         'rule-at-start': spec('rule-at-start', [A, X, B], {A: 4, B: 1, X: 0}, rx,
                               rules=[dict(type='assignment', target=X, rhs=('+', ('*', ('num', 3), ID(A)), ('num', 5)), freq='start')]),
@@ -70,6 +71,17 @@ def run_one(c, opt):
     import pandas
     sp = models()[opt['model']]
     m = to_model(sp)
+    if sp.get('rejected'):
+        # edits that are rejected after the model was built: an unparsable rule, an additive rule over an unknown species (its first
+        # source exists), a reaction whose Hill rate names an unknown species - none of them may take part in a simulation
+        for f in (lambda: m.create_rule('assignment', {'equation': 'A = B +* 2'}),
+                  lambda: m.create_rule('additive', {'equation': 'B = A + NoSuchSpecies'}),
+                  lambda: m.create_reaction([A], [B, B], 'hillpositive', {'k': 50.0, 'K': 2.0, 'n': 2.0, 's1': 'NoSuchSpecies'})):
+            try:
+                f()
+            except Exception:
+                continue
+            raise RuntimeError('harness: an edit that must be rejected was accepted')
     times = np.linspace(0, 0.25 * (opt['n'] - 1), opt['n'])
     kw = dict(stochastic=opt['stochastic'], delay=opt['delay'], safe=opt['safe'], return_dataframe=opt['dataframe'])
     vol = make_volume(opt['volume'], m)
@@ -169,8 +181,8 @@ def run(ctx):
     lat = lattice(ctx.tier)
     ctx.bounds = dict(option_combinations=len(lat))
     ctx.rule = ('E3/product lattice, exhaustive: {stochastic} x {delay None/False/True} x {safe} x {volume False/True/number (float 2.0, int 2, int 3)/Volume object/'
-                'initialised growing volume (thorough: + dividing)} x {data frame, result object} x {Model, pre-built interface} x 7 models '
-                '(twelve species in a cycle, plain, delayed reaction, repeated assignment rule, both, a rule due at the start spelled "start" and "0") x grid lengths; every call is made on the real py_simulate_model under a '
+                'initialised growing volume (thorough: + dividing)} x {data frame, result object} x {Model, pre-built interface} x 8 models '
+                '(twelve species in a cycle, plain, one with a rule and rejected create_rule / create_reaction calls after it, delayed reaction, repeated assignment rule, both, a rule due at the start spelled "start" and "0") x grid lengths; every call is made on the real py_simulate_model under a '
                 'fixed seed, and for one grid length the same call is repeated on the same Model / interface. Oracle: a returned result has the requested time axis (prefix if divided), one column per species in model '
                 'order (+volume when a volume is used; a constant volume given as a number or Volume object is reported with that value), first row = initial condition with rules applied; a refusal must be a ValueError/'
                 'TypeError naming an option (or NotImplementedError raised by the entry point itself). states = transitions = calls; '
